@@ -514,7 +514,7 @@ def shards(tier):
     for c in hx.CATEGORIES:
         out.append(("enum", 2, c, None))
     if tier == "thorough":
-        for c in ["diag_comms", "dops", "tables", "gnrs", "state_charts", "unit_groups", "muxs"]:
+        for c in ["diag_comms", "dops", "tables", "gnrs", "state_charts", "unit_groups"]:
             for t0 in hx.LAYER_TYPES:
                 out.append(("enum", 3, c, t0))
     return out
@@ -551,7 +551,7 @@ def run_shard(spec, seed, tier):
             f"all hierarchies of exactly {k} layers (ordered type tuples), all allowed PARENT-REF sets, short names "
             f"a,b of category {cat} in all placements, all effective NOT-INHERITED subsets per parent reference")
         return res
-    n = 600 if tier == "quick" else 3000
+    n = 400 if tier == "quick" else 3000
     prof = spec[2]
     cats = None
     if prof == "dense":   # the dense shards rotate over the categories so that each sees clashes
